@@ -1,3 +1,4 @@
 import Audit.Tool
 import Uds.Props.C01
+import Uds.Props.C01Hist
 #audit Uds.Props.C01
